@@ -140,9 +140,14 @@ impl Circuit {
                 return Err(CircuitError::InvalidInst(i));
             }
             match inst.op {
-                Op::Input(_) => {
+                Op::Input(Input { party, input }) => {
                     if i != inst.out.0 as usize {
                         return Err(CircuitError::InvalidInput(i, *inst));
+                    }
+                    // the instruction must refer to an existing input bit of an existing party:
+                    match self.input_regs.get(party as usize) {
+                        Some(&inputs_of_party) if (input as usize) < inputs_of_party => {}
+                        _ => return Err(CircuitError::InvalidInput(i, *inst)),
                     }
                 }
                 Op::Xor(Xor(x, y)) | Op::And(And(x, y)) => {
